@@ -72,7 +72,8 @@ def run(ctx):
     cn = ctx.body("<pgcat::pool::ServerPool as bb8::api::ManageConnection>::connect::{closure#0}", r2)
     if cn:
         csw = switches(cn)
-        errE, okE, _ = discr_edges(cn, r"core::result::Result<pgcat::server::Server", "Err", origin_pred=lambda o: o.kind == "call" and o.call.name == "pgcat::server::Server::startup", switches_cache=csw)
+        # the outcome of the connection attempt: Server::startup's result, possibly through the deadline put around it (D56)
+        errE, okE, _ = discr_edges(cn, r"core::result::Result<pgcat::server::Server", "Err", switches_cache=csw)
         dc = [c.block for c in cn.calls(SS + "disconnect")]
         rets = [bb for bb, blk in enumerate(cn.blocks) if blk["term"]["k"] == "return"]
         wit = cn.uncrossed_path([d for _, d in errE], rets, blocks=dc) if errE else [0]
